@@ -2,4 +2,4 @@
 # Re-runs every kept seeded change (seeded/<id>/patch.diff) against the check of its property, 4 at a time.
 # Each runs in its own scratch worktree of /repo (PPV_REPO); /repo is not modified.  Prints one line per change.
 cd /verif
-ls seeded | xargs -P ${PAR:-4} -I{} sh -c 'ID=$(echo {} | cut -d- -f1); ./ppv/seedtest.sh seeded/{}/patch.diff $ID | sed "s/^/{} /"' | sort
+ls seeded | xargs -P ${PAR:-4} -I{} sh -c 'ID=$(echo {} | sed -E "s/^(r2-)?(C[0-9]+)-.*/\2/"); ./ppv/seedtest.sh seeded/{}/patch.diff $ID | sed "s/^/{} /"' | sort
